@@ -236,12 +236,9 @@ def hops_from(st_, cname):
             if j != i and b['rel'] == a['rel'] and b['src'] == a['src'] and b.get('shape') == 'assoc':
                 # from a.tgt through link class to b.tgt: phrase of the end navigated to
                 if a['tgt_phrase'] == b['src_phrase']:
-                    out.append((b['tgt'], a['rel'], a['tgt_phrase']))
-    seen = []
-    for h in out:
-        if h not in seen:
-            seen.append(h)
-    return seen
+                    # listed three times: the two-hop form is the rarest and the most intricate one
+                    out.extend([(b['tgt'], a['rel'], a['tgt_phrase'])] * 3)
+    return out
 
 
 def run_queries(st_, case, res=None):
@@ -380,6 +377,50 @@ def run_queries(st_, case, res=None):
                      classes=classes + ['state-' + case['source']])
 
 
+def systematic_two_hop(st_, case):
+    """every class -> class navigation across an association class, from every live instance (the drawn queries
+    reach this form only occasionally)"""
+    back = dict((id(v), k) for k, v in st_.real.items())
+    n = 0
+    for c in st_.schema.classes:
+        for kind, rel, phrase in hops_from(st_, c['name']):
+            direct = st_.sh.resolve(c['name'], kind, rel, phrase)
+            if direct:
+                continue
+            for r in st_.sh.live(c['name']):
+                want = [p.idx for p in st_.sh.nav1(r, kind, rel, phrase)]
+                try:
+                    got = [back.get(id(x), -1) for x in xtuml.navigate_many(st_.real[r.idx]).nav(kind, rel, phrase)()]
+                except Exception as e:
+                    raise Violation('navigation-exception:' + exc_bucket(e), case, repr(e))
+                if got != want:
+                    raise Violation('navigation-many-wrong-result:across-association-class', case,
+                                    '%r -> %s[R%d %r]: got %r want %r' % (r, kind, rel, phrase, got, want))
+                n += 1
+    return n
+
+
+def check_links_unchanged(st_, case):
+    """queries and navigations are reads: afterwards every association still navigates as the shadow says"""
+    back = dict((id(v), k) for k, v in st_.real.items())
+    for i, a in enumerate(st_.schema.assocs):
+        for r in st_.sh.live(a['src']):
+            want = [p.idx for p in st_.sh.partners(i, r, True)]
+            got = [back.get(id(x), -1) for x in xtuml.navigate_many(st_.real[r.idx]).nav(a['tgt'], a['rel'], a['src_phrase'])()]
+            if sorted(got) != sorted(want):
+                raise Violation('queries-changed-the-model', case, 'after the queries R%d from %r reaches %r, before %r' % (a['rel'], r, got, want))
+        for r in st_.sh.live(a['tgt']):
+            want = [p.idx for p in st_.sh.partners(i, r, False)]
+            got = [back.get(id(x), -1) for x in xtuml.navigate_many(st_.real[r.idx]).nav(a['src'], a['rel'], a['tgt_phrase'])()]
+            if sorted(got) != sorted(want):
+                raise Violation('queries-changed-the-model', case, 'after the queries R%d to %r is reached from %r, before %r' % (a['rel'], r, got, want))
+    for c in st_.schema.classes:
+        got = [back.get(id(x), -1) for x in st_.m.select_many(c['name'])]
+        want = [r.idx for r in st_.sh.live(c['name'])]
+        if got != want:
+            raise Violation('queries-changed-the-model', case, 'after the queries %s holds %r, before %r' % (c['name'], got, want))
+
+
 def core_sha(case):
     from .core import sha
     return sha([case.get('schema'), case.get('ops'), case.get('rows'), case.get('init')])
@@ -400,6 +441,9 @@ def run(ctx):
         try:
             st_ = State(case)
             run_queries(st_, case, res)
+            if systematic_two_hop(st_, case) and res is not None:
+                res.classes['two-hop-probe'] += 1
+            check_links_unchanged(st_, case)
         except Violation:
             raise
         except Exception as e:
@@ -412,3 +456,5 @@ def run(ctx):
 def replay(case):
     st_ = State(case)
     run_queries(st_, case)
+    systematic_two_hop(st_, case)
+    check_links_unchanged(st_, case)
